@@ -219,11 +219,188 @@ func c26Diff(da, db string) (label, la, lb string) {
 	return "", "", ""
 }
 
+
+// ---------------------------------------------------------------------------
+// preconditions of the defects already recorded in known_findings.json
+// ---------------------------------------------------------------------------
+
+// c26Walk visits e and every sub-expression, including duration expressions.
+func c26Walk(e Expr, f func(Expr)) {
+	if e == nil || (reflect.ValueOf(e).Kind() == reflect.Ptr && reflect.ValueOf(e).IsNil()) {
+		return
+	}
+	f(e)
+	switch n := e.(type) {
+	case *AggregateExpr:
+		c26Walk(n.Expr, f)
+		c26Walk(n.Param, f)
+	case *BinaryExpr:
+		c26Walk(n.LHS, f)
+		c26Walk(n.RHS, f)
+	case *Call:
+		for _, a := range n.Args {
+			c26Walk(a, f)
+		}
+	case *MatrixSelector:
+		c26Walk(n.VectorSelector, f)
+		c26Walk(n.RangeExpr, f)
+	case *SubqueryExpr:
+		c26Walk(n.Expr, f)
+		c26Walk(n.RangeExpr, f)
+		c26Walk(n.StepExpr, f)
+		c26Walk(n.OriginalOffsetExpr, f)
+	case *ParenExpr:
+		c26Walk(n.Expr, f)
+	case *UnaryExpr:
+		c26Walk(n.Expr, f)
+	case *StepInvariantExpr:
+		c26Walk(n.Expr, f)
+	case *VectorSelector:
+		c26Walk(n.OriginalOffsetExpr, f)
+	case *DurationExpr:
+		c26Walk(n.LHS, f)
+		c26Walk(n.RHS, f)
+	}
+}
+
+func c26IsArith(op ItemType) bool {
+	switch op {
+	case ADD, SUB, MUL, DIV, MOD, POW:
+		return true
+	}
+	return false
+}
+
+// c26Precondition names the first known-defect precondition that the accepted AST e satisfies
+// ("" when none). A round-trip failure of an expression with such a precondition is reported
+// under "<precondition>:<kind of failure>"; every other failure keeps its detailed signature.
+// The preconditions are properties of the parser's OUTPUT for the input, they do not mention
+// concrete inputs:
+//
+//	nan-duration                        a range/step/offset field holds the int64 conversion of NaN (MinInt64)
+//	duration-expr-gate-hole             a DurationExpr node although ExperimentalDurationExpr is off (first choice when the
+//	                                    printed form is rejected, last choice otherwise)
+//	offset-duration-expr-extent         an offset whose duration expression is (a chain of unary signs over) an unparenthesised
+//	                                    binary expression, or a selector with an offset duration expression that is a
+//	                                    direct operand of an arithmetic binary operator (how far the duration
+//	                                    expression after "offset" extends depends on its first token)
+//	duration-expr-unary-plus            an unparenthesised unary-plus DurationExpr node
+//	inf-literal                         a number literal +Inf (printed as "+Inf")
+//	duration-literal-float-truncation   a duration literal whose seconds*1e9 is below the exact nanosecond count
+//	duration-not-ms-representable       a range/step/offset with a sub-millisecond part or rounded to 0ns, a duration literal -0,
+//	                                    or one whose float nanosecond count is no whole number of ms or overflows int64
+func c26Precondition(e Expr, opts Options, rejected bool) string {
+	var nanDur, gateHole, extent, uplus, inf, trunc, subms bool
+	dur := func(d int64) {
+		if d == math.MinInt64 {
+			nanDur = true
+		} else if d%1000000 != 0 {
+			subms = true
+		}
+	}
+	var spineBinary func(d *DurationExpr) bool
+	spineBinary = func(d *DurationExpr) bool {
+		switch {
+		case d == nil || d.Wrapped:
+			return false
+		case d.LHS != nil && d.RHS != nil:
+			return c26IsArith(d.Op)
+		case d.LHS == nil:
+			r, _ := d.RHS.(*DurationExpr)
+			return spineBinary(r)
+		}
+		return false
+	}
+	offExpr := func(d *DurationExpr) {
+		if spineBinary(d) {
+			extent = true
+		}
+	}
+	hasOffExpr := func(x Expr) bool {
+		switch n := x.(type) {
+		case *VectorSelector:
+			return n.OriginalOffsetExpr != nil
+		case *SubqueryExpr:
+			return n.OriginalOffsetExpr != nil
+		case *MatrixSelector:
+			if vs, ok := n.VectorSelector.(*VectorSelector); ok {
+				return vs.OriginalOffsetExpr != nil
+			}
+		}
+		return false
+	}
+	c26Walk(e, func(x Expr) {
+		switch n := x.(type) {
+		case *VectorSelector:
+			dur(int64(n.OriginalOffset))
+			offExpr(n.OriginalOffsetExpr)
+		case *MatrixSelector:
+			dur(int64(n.Range))
+			if n.Range == 0 && n.RangeExpr == nil {
+				subms = true // a positive literal that rounds to 0ns
+			}
+		case *SubqueryExpr:
+			dur(int64(n.OriginalOffset))
+			dur(int64(n.Range))
+			dur(int64(n.Step))
+			if n.Range == 0 && n.RangeExpr == nil {
+				subms = true
+			}
+			offExpr(n.OriginalOffsetExpr)
+		case *BinaryExpr:
+			if c26IsArith(n.Op) && (hasOffExpr(n.LHS) || hasOffExpr(n.RHS)) {
+				extent = true
+			}
+		case *DurationExpr:
+			if !opts.ExperimentalDurationExpr {
+				gateHole = true
+			}
+			if n.Op == ADD && n.LHS == nil && n.RHS != nil && !n.Wrapped {
+				uplus = true
+			}
+		case *NumberLiteral:
+			if !n.Duration {
+				if math.IsInf(n.Val, 1) {
+					inf = true
+				}
+				return
+			}
+			v := math.Abs(n.Val) * 1e9
+			switch {
+			case n.Val == 0 && math.Signbit(n.Val), v >= 9223372036854775000, int64(math.Round(v))%1000000 != 0:
+				subms = true
+			case int64(v) != int64(math.Round(v)):
+				trunc = true
+			}
+		}
+	})
+	switch {
+	case nanDur:
+		return "nan-duration"
+	case gateHole && rejected:
+		return "duration-expr-gate-hole"
+	case extent:
+		return "offset-duration-expr-extent"
+	case uplus:
+		return "duration-expr-unary-plus"
+	case inf:
+		return "inf-literal"
+	case trunc:
+		return "duration-literal-float-truncation"
+	case subms:
+		return "duration-not-ms-representable"
+	case gateHole:
+		return "duration-expr-gate-hole"
+	}
+	return ""
+}
+
 // ---------------------------------------------------------------------------
 // oracle
 // ---------------------------------------------------------------------------
 
 type c26Env struct {
+	opts   Options
 	parse  func(string) (Expr, error)
 	print  func(Expr) string
 	pretty func(Expr) string
@@ -292,8 +469,28 @@ func c26Short(stack string) string {
 	return stack
 }
 
+// c26Check evaluates one input; round-trip failures of expressions that satisfy a known-defect
+// precondition are re-labelled "<precondition>:<kind>".
 func c26Check(env *c26Env, in string, doRT, doPretty bool) (res c26Result) {
+	var e0 Expr
+	res = c26CheckRaw(env, in, doRT, doPretty, &e0)
+	if res.fail != nil && res.accepted && e0 != nil {
+		kind, _, _ := strings.Cut(res.fail.sig, "@")
+		kind, _, _ = strings.Cut(kind, ":")
+		switch kind {
+		case "reparse-ast-differs", "printed-form-rejected", "reprint-differs", "pretty-ast-differs", "pretty-form-rejected":
+			var pre string
+			if p, _ := vx.Guard(func() { pre = c26Precondition(e0, env.opts, strings.HasSuffix(kind, "-form-rejected")) }); p == nil && pre != "" {
+				res.fail.sig = pre + ":" + kind
+			}
+		}
+	}
+	return res
+}
+
+func c26CheckRaw(env *c26Env, in string, doRT, doPretty bool, e0p *Expr) (res c26Result) {
 	e0, err, pan, st := c26ParseGuard(env, in)
+	*e0p = e0
 	if pan != nil {
 		res.fail = &c26Fail{"parse-panic", fmt.Sprintf("ParseExpr(%q) panicked: %v\n%s", in, pan, c26Short(st))}
 		return
@@ -392,6 +589,7 @@ func c26Options(bits int) Options {
 func c26RealEnv(bits int) *c26Env {
 	p := NewParser(c26Options(bits))
 	return &c26Env{
+		opts:   c26Options(bits),
 		parse:  p.ParseExpr,
 		print:  func(e Expr) string { return e.String() },
 		pretty: func(e Expr) string { return Prettify(e) },
@@ -651,13 +849,25 @@ func TestVerifC26(t *testing.T) {
 	maxCharactersPerLine = defaultWidth
 
 	// ---- phase 3: all token strings up to length L (joined with " " and with "")
-	L := vx.Pick(r, 3, 4)
+	// all strings of <= 3 tokens over the whole alphabet; thorough: also all 4-token strings over
+	// its first 40 (most structural) tokens
+	L := 3
 	ntok := len(c26Tokens)
 	total := vx.SeqCount(ntok, 1, L)
+	const ntok4 = 40
+	total4 := int64(0)
+	if r.Thorough() {
+		total4 = vx.SeqCount(ntok4, 4, 4)
+	}
 	var tokStrings, tokAccepted atomic.Int64
 	if !r.Expired() {
-		r.ParallelN(total, func(i int64) {
-			seq := vx.SeqAt(ntok, 1, L, i, nil)
+		r.ParallelN(total+total4, func(i int64) {
+			var seq []int
+			if i < total {
+				seq = vx.SeqAt(ntok, 1, L, i, nil)
+			} else {
+				seq = vx.SeqAt(ntok4, 4, 4, i-total, nil)
+			}
 			parts := make([]string, len(seq))
 			for k, s := range seq {
 				parts[k] = c26Tokens[s]
@@ -696,6 +906,7 @@ func TestVerifC26(t *testing.T) {
 	}
 	r.Set("token_alphabet", ntok)
 	r.Set("token_string_max_len", L)
+	r.Set("token_strings_len4_alphabet", vx.Pick(r, 0, ntok4))
 
 	// ---- phase 4: every single-token deletion / duplication of every printed form
 	maxLayer := vx.Pick(r, uint8(2), uint8(9))
@@ -754,7 +965,7 @@ func TestVerifC26(t *testing.T) {
 	r.Set("rule", "one evaluation = one input text under one of the 16 parser option sets (experimental functions x duration expressions x extended range selectors x binop fill modifiers). "+
 		"Inputs: (1) the typed text generator of c26_gen_test.go (layers L0 leaves, L1 every node kind with its full parameter alphabet over core leaves and every leaf in every child position of a default template, "+
 		"LP all two-operator precedence/unary-minus trees, L2 every node kind over one L1 representative per node kind and precedence class, thorough: L3 over L2 representatives); "+
-		"(2) every string of 1..L tokens over the structural token alphabet, joined with and without spaces; (3) every single-token deletion and duplication of every printed form (quick: forms of L0, L1, LP under the option sets none/all/0101/1010; thorough: all forms, all 16 sets). "+
+		"(2) every string of 1..3 tokens over the 56-token structural alphabet (thorough: also every 4-token string over its first 40 tokens), joined with and without spaces; (3) every single-token deletion and duplication of every printed form (quick: forms of L0, L1, LP under the option sets none/all/0101/1010; thorough: all forms, all 16 sets). "+
 		"Every accepted input is printed, re-parsed, compared field by field (positions ignored) and re-printed, and prettified at each width and re-parsed; every rejected input must carry ParseErrors. "+
 		"distinct_nontrivial = distinct accepted ASTs (by full field dump) with at least two nodes; distinct_outcomes = root node types of accepted inputs and normalised first error messages of rejected ones.")
 	r.Assume("structural equality ignores position ranges, identifies nil with empty slices, compares the label matchers of one selector as a multiset and identifies all NaN payloads")
